@@ -3,3 +3,4 @@ package autometa
 // Bounds of the arbitrary-byte harnesses (overridden per tier by the check driver).
 var verifC07N = 20
 var verifC08N = 12
+var verifC09N = 12
